@@ -62,7 +62,9 @@ fn merged_ok(src: &str) -> bool {
 #[derive(Clone, Copy, PartialEq, Debug)]
 pub enum TC { Word, Str, Pat, Int, Lit, Cap, RCap, Punct, Query, Quant }
 #[derive(Clone, Copy, PartialEq, Debug)]
-pub enum Glue { Free, NoGap, WsFirst }
+/// BareName: the name of a global without quantifier character - any gap (also none) may follow, but the next
+/// character must neither continue the name nor be `?` `*` `+` (it would be taken for the quantifier)
+pub enum Glue { Free, NoGap, BareName }
 #[derive(Clone, Debug)]
 pub struct Tok { text: String, class: TC, glue: Glue }
 fn pk<'a>(rng: &mut Rng, xs: &[&'a str]) -> &'a str { xs[rng.below(xs.len())] }
@@ -453,19 +455,26 @@ impl Pred {
         self.kwprefix(&n);
         let name_tok = self.toks.len().wrapping_sub(1);
         let mut q = "none";
+        // parse_quantifier (repaired): only `?` `*` `+` are consumed, anything else is left for the caller
         match self.try_peek() {
-            None => { if let Some(t) = self.toks.get_mut(name_tok) { t.glue = Glue::WsFirst; } }
-            Some(c) => {
+            Some(c) if c == '?' || c == '*' || c == '+' => {
                 self.i += 1;
-                if c == '?' || c == '*' || c == '+' {
-                    if let Some(t) = self.toks.get_mut(name_tok) { t.glue = Glue::NoGap; }
-                    self.push_tok(self.i - 1, self.i, TC::Quant);
-                    q = match c { '?' => "?", '*' => "*", _ => "+" };
-                } else if c.is_whitespace() {
-                    if let Some(t) = self.toks.get_mut(name_tok) { t.glue = Glue::WsFirst; }
-                } else { return Err(()); }
+                if let Some(t) = self.toks.get_mut(name_tok) { t.glue = Glue::NoGap; }
+                self.push_tok(self.i - 1, self.i, TC::Quant);
+                q = match c { '?' => "?", '*' => "*", _ => "+" };
+            }
+            other => {
+                if let Some(t) = self.toks.get_mut(name_tok) { t.glue = Glue::BareName; }
+                match other {
+                    None => self.tag("global:name-then-eof"),
+                    Some('=') => self.tag("global:name-then-eq"),
+                    Some(';') => self.tag("global:name-then-comment"),
+                    Some(c) if !c.is_whitespace() => self.tag("global:name-then-other"),
+                    _ => {}
+                }
             }
         }
+        if self.try_peek() == Some('=') && q != "none" { self.tag("global:quant-then-eq"); }
         self.ws();
         if self.token("=").is_ok() { self.ws(); self.string(TC::Str)?; self.tag("global:default"); }
         self.tag(&format!("global:{}", q));
@@ -757,10 +766,17 @@ impl Layout {
         } else {
             match self.prev_glue {
                 Glue::NoGap => String::new(),
-                Glue::WsFirst => {
-                    let mut s = rng.pick(&[' ', ' ', '\t', '\n', '\r']).to_string();
-                    if rng.chance(30) { s.push_str(&self.gap(rng, false)); }
-                    s
+                Glue::BareName => {
+                    let must = first.map_or(false, |b| is_ident(b) || b == '?' || b == '*' || b == '+');
+                    let g = match rng.below(10) {
+                        0 | 1 | 2 if !must => String::new(),                                   // `global x="a"`, `global x(module) ...`
+                        3 => format!(";{}\n", pk(rng, COMMENTS)),                             // `global x;c`
+                        4 => rng.pick(&["\n", "\r\n", "\t", "\r"]).to_string(),
+                        _ => self.gap(rng, must),
+                    };
+                    if g.is_empty() { self.feats.insert("global-name-glued"); }
+                    if g.starts_with(';') { self.feats.insert("global-name-then-comment"); }
+                    g
                 }
                 Glue::Free => {
                     let must = match (self.prev_last, first) { (Some(a), Some(b)) => is_ident(a) && is_ident(b), _ => false };
@@ -780,10 +796,10 @@ impl Layout {
     fn finish(mut self, rng: &mut Rng) -> (String, BTreeSet<&'static str>) {
         match self.prev_glue {
             Glue::NoGap => {}
-            Glue::WsFirst => if rng.chance(60) {
-                let mut s = rng.pick(&[' ', '\t', '\n', '\r']).to_string();
-                if rng.chance(30) { s.push_str(&self.gap(rng, false)); }
-                self.raw(&s);
+            Glue::BareName => match rng.below(5) {                                           // `global x` may end the input
+                0 | 1 => { self.feats.insert("global-name-at-eof"); }
+                2 => { let c = format!(";{}", pk(rng, COMMENTS)); self.raw(&c); if rng.chance(50) { self.raw("\n"); } }
+                _ => { let g = self.gap(rng, false); self.raw(&g); }
             },
             Glue::Free => if rng.chance(60) { let g = self.gap(rng, false); self.raw(&g); },
         }
@@ -911,7 +927,7 @@ impl<'a> Rend<'a> {
         match it {
             Item::G(g) => {
                 self.t("global");
-                let glue = if g.quant == 0 { Glue::WsFirst } else { Glue::NoGap };
+                let glue = if g.quant == 0 { Glue::BareName } else { Glue::NoGap };
                 g.loc = self.lay.tok(self.rng, &g.name, glue);
                 if g.quant != 0 { self.t(["", "?", "*", "+"][g.quant as usize]); }
                 if let Some(d) = &g.default { self.t("="); let s = enc_string(self.rng, d); self.t(&s); }
@@ -1177,9 +1193,30 @@ fn make_case(stream: &str, text: &str, intended: Option<&str>, mut tags: Vec<Str
            replay, nontrivial, key: fnv(text), tags }
 }
 
+/// hand-written VALID texts in every C07 run: the layouts of a global that the repaired parse_quantifier accepts
+/// (no whitespace needed after the name; formerly ExpectedQuantifier) next to the ones that were always accepted
+const FIXED_VALID: &[&str] = &[
+    "global x=\"a\"\n(module) @m { }",
+    "global x=\"a\"(module) @m { }",
+    "global x;c\n(module) @m { }",
+    "global x= \"a\" (module) @m { }",
+    "global x?=\"a\"\n(module) @m { }",
+    "global x\n(module) @m { }",
+    "global x(module) @m { }",
+    "global x \"def\" @k { }",
+    "global x\"def\" @k { }",
+    "(module) @m { }global x",
+    "(module) @m { }\nglobal x;c",
+    "global x=\"a\"global y*global z;c\n=;d\n\"e\"inherit .w global v",
+    "global x = \"a\"\nglobal y ;c\n(module) @m { }",
+];
+
 pub fn gen(rng: &mut Rng, n: usize) -> Vec<Case> {
     let queries = query_pool();
     let mut out = Vec::with_capacity(n);
+    for t in FIXED_VALID.iter().take(n / 4) {
+        out.push(make_case("C07", t, None, vec!["src:fixed".into()], "hand-written valid layout of a global"));
+    }
     while out.len() < n {
         if rng.chance(50) {
             if let Some((text, feats)) = gen_relayout_text(rng, false) {
@@ -1227,7 +1264,11 @@ fn specials() -> Vec<(String, String)> {
     for t in [" \n\t\r\n", "\u{a0}\u{2028} ", "\n", "\u{b}\u{c}"] { add("ws-only", t.to_string()); }
     for t in ["; c", "; c\n", ";\n;;\n ; é {", ";", ";\n", "; (module) @m { }", " ; a\r; b\n"] { add("comment-only", t.to_string()); }
     for sfx in ["", " ", "\n", "\t", "\r", ";", "; c\n", "?", "*", "+", "??", "=", "= \"d\"", "(", "\"", "\u{a0}", "\u{2028}", "é", "\0", "0", "-", "_", "?=\"d\"",
-                " = ", " = x", "? (module) @m { }", " (module) @m { }", ";(module) @m { }\n", " ;c\n= \"d\"", "+;c\n=;d\n\"d\";e", "?\u{a0}=\u{a0}\"d\"", "{", ".", "\u{ff10}", "\u{b}"] {
+                " = ", " = x", "? (module) @m { }", " (module) @m { }", ";(module) @m { }\n", " ;c\n= \"d\"", "+;c\n=;d\n\"d\";e", "?\u{a0}=\u{a0}\"d\"", "{", ".", "\u{ff10}", "\u{b}",
+                // formerly ExpectedQuantifier (one character after the name was consumed and had to be whitespace or ? * +)
+                "!", "!x", "! (module) @m { }", "- (module) @m { }", "-! { }", "#", "@", ",", "/", "%", ")", "]", "}", "=x", "==\"d\"", "=\"a\"", "= \"a\"", ";c", ";c\n", "?*", "*?", "+ +", "?;c\n=\"a\"",
+                "=\"a\" (module) @m { }", "=\"a\"(module) @m { }", ";c\n(module) @m { }", "(module) @m { }", "\n(module) @m { }", "?=\"a\"\n(module) @m { }", "= \"a\"\n(module) @m { }",
+                "\"a\" (module) @m { }", "=\"a\"global y", "=\"a\"global y=\"b\"inherit .z", "{ }", "! { }", "\u{a0}=\u{a0}\"d\"", "é=\"d\"", "\u{661}", "\u{2028}=\"d\""] {
         add("global-lone", format!("global x{}", sfx));
     }
     for t in ["global", "global ", "global 1", "globalx", "globalx?", "global;c\nx", "global\u{a0}x", "global global", "global é*", "global x = \"a\\", "global x = 'd'"] { add("global-form", t.to_string()); }
